@@ -68,6 +68,7 @@ def _wait(E, ev, timeout=None):
         raise Unsupported("Event.wait(%r)" % (timeout,))
     E.ghost.setdefault("waits", []).append(dt)
     if E.branch(z3.Bool(E.fresh("stop_requested"))):
+        E.ghost["stop_seen"] = True
         return True
     now2 = E.fresh_int("now")
     E.assume(z3.And(now2 >= E.ghost["now"] + dt, now2 < 2 ** 63))
@@ -277,6 +278,7 @@ def build_worker(run, prop, E):
         E.ghost["pre"] = (fr.locals[TN].t, E.ghost["ticks"])
         E.ghost["fire_time"] = None
         E.ghost["waits"] = []
+        E.ghost["stop_seen"] = False
 
     def inv(E, fr, i):
         tn = Z(fr.locals[TN])
@@ -333,7 +335,7 @@ def build_worker(run, prop, E):
             continue
         n_stop += 1
         # the loop is only left through the breaker
-        run.add(Obligation(prop, qualname(f), "returns_only_on_stop_request", p.pc, z3.BoolVal(True), kind="post", where=where(f), tag=tag))
+        run.add(Obligation(prop, qualname(f), "returns_only_on_stop_request", p.pc, z3.BoolVal(bool(p.ghost.get("stop_seen"))), kind="post", where=where(f), tag=tag))
     if n_stop == 0:
         run.add(Obligation(prop, qualname(f), "stop_path_exists", [], z3.BoolVal(False), kind="cover", where=where(f)))
     E.loop_specs = {}
@@ -493,37 +495,44 @@ def replay(payload):
     if what == "worker":
         # scripted clock: handler durations alternate below/above one frame period
         T = int((cg.CLCKGen.GSM_FRAME_US / cg.CLCKGen.SEC_DELAY_US) // 1e-9)
-        clock = {"now": 1000}
-        fired, waits = [], []
-        durs = [100, T // 2, 3 * T, 10, T + 1, 5, 5, 2 * T, 1]
-        g = cg.CLCKGen([])
         cgm = toolkit("clck_gen")
+        # handler-duration scripts: around one period, and extreme overruns (seconds, hours) - the worker must keep ticking through all of them
+        scripts = [[100, T // 2, 3 * T, 10, T + 1, 5, 5, 2 * T, 1],
+                   [5, 1500 * T, 5, 10 ** 6 * T, 7, T - 1, T, 10 ** 9 * T, 3, 3]]
+        for durs in scripts:
+            clock = {"now": 1000}
+            fired, waits = [], []
+            g = cg.CLCKGen([])
 
-        class Ev:
-            def wait(s, t):
-                waits.append(t)
-                clock["now"] += int(round(t * 1e9))
-                return len(fired) >= len(durs)
-        g._breaker = Ev()
-        g.send_clck_ind = lambda: (fired.append(clock["now"]), clock.__setitem__("now", clock["now"] + durs[len(fired) - 1]))
-        orig = cgm.time.monotonic_ns
-        cgm.time.monotonic_ns = lambda: clock["now"]
-        import logging
-        logging.disable(logging.CRITICAL)
-        try:
-            g._worker()
-        finally:
-            cgm.time.monotonic_ns = orig
-        bad = []
-        base, k0 = 1000, 0
-        for k, t in enumerate(fired):
-            dl = base + (k + 1 - k0) * T
-            if t < dl - 2:           # overrun -> resync
-                pass
-            if k > 0 and fired[k - 1] + durs[k - 1] > dl:      # previous handler overran this deadline: resync expected
-                base, k0 = t, k + 1
-            elif abs(t - dl) > 2:
-                bad.append((k, t, dl))
-                base, k0 = t, k + 1
-        return {"confirmed": bool(bad) or len(fired) != len(durs), "observed": bad or "deadlines absolute, one tick per iteration", "expected": "t0 + k*T or resync"}
+            class Ev:
+                def wait(s, t):
+                    waits.append(t)
+                    clock["now"] += int(round(t * 1e9))
+                    return len(fired) >= len(durs)
+            g._breaker = Ev()
+            g.send_clck_ind = lambda: (fired.append(clock["now"]), clock.__setitem__("now", clock["now"] + durs[len(fired) - 1]))
+            orig = cgm.time.monotonic_ns
+            cgm.time.monotonic_ns = lambda: clock["now"]
+            import logging
+            logging.disable(logging.CRITICAL)
+            try:
+                g._worker()
+            finally:
+                cgm.time.monotonic_ns = orig
+            bad = []
+            base, k0 = 1000, 0
+            for k, t in enumerate(fired):
+                dl = base + (k + 1 - k0) * T
+                if t < dl - 2:           # overrun -> resync
+                    pass
+                if k > 0 and fired[k - 1] + durs[k - 1] > dl:      # previous handler overran this deadline: resync expected
+                    base, k0 = t, k + 1
+                elif abs(t - dl) > 2:
+                    bad.append((k, t, dl))
+                    base, k0 = t, k + 1
+            if bad or len(fired) != len(durs):
+                return {"confirmed": True, "statement_level": True,
+                        "observed": bad or "the worker returned after %d of %d ticks without a stop request" % (len(fired), len(durs)),
+                        "handler_durations_ns": durs, "expected": "t0 + k*T or resync; the loop is only left on a stop request"}
+        return {"confirmed": False, "observed": "deadlines absolute, one tick per iteration, loop left only on the stop request", "expected": "t0 + k*T or resync"}
     return {"confirmed": False, "error": "no native replay for %r" % what}
